@@ -228,7 +228,16 @@ func queried(h string) string {
 
 type violation struct{ key, txt string }
 
-func (w *world) runQuery(c *vh.Ctx, q queryIn) (string, *violation) {
+func (w *world) runQuery(c *vh.Ctx, q queryIn) (term string, v *violation) {
+	defer func() {
+		if r := recover(); r != nil {
+			// a panic inside Verify is reported with the query that caused it; the case term makes
+			// the model disagree as well
+			term = fmt.Sprintf("(mkQuery %s %s %s %s (@nil N) %s %s false (@nil (list N)) (@nil (list N)) (@nil (list N)) 999%%N 0%%N)",
+				vh.Nat(q.Leaf), nats(q.Roots), nats(q.Inters), vh.Z(q.Now), vh.Str(q.DNS), queried(q.DNS))
+			v = &violation{"verify-panics", fmt.Sprintf("panic: %v", r)}
+		}
+	}()
 	leaf := w.xs[q.Leaf]
 	roots, inters := w.pool(q.Roots), w.pool(q.Inters)
 	var req []x509.ExtKeyUsage
@@ -822,7 +831,7 @@ func gen(c *vh.Ctx) {
 
 	np, nq := 120, 14
 	if c.Thorough {
-		np, nq = 2500, 30
+		np, nq = 1500, 24
 	}
 	for i := 0; i < np; i++ {
 		sh := randPKI(c)
